@@ -196,7 +196,7 @@ exactly representable, the mean's division is rounded by the harness's canonical
 
 * integer canvas (the first array has the field): `overlap[visits == 0] = nan` raises `ValueError`
   (mean/sum, whatever the mask holds); otherwise the mean's in-place true division raises
-  `UFuncTypeError`; `np.full(shape, fill, dtype=int)` and the fill assignment truncate a finite fill;
+  `UFuncTypeError` (a `TypeError`, which is what the model names); `np.full(shape, fill, dtype=int)` and the fill assignment truncate a finite fill;
 * float canvas assigned into an integer field: truncation toward zero;
 * NaN cast to an integer is platform dependent (NumPy warns "invalid value encountered in cast"):
   the model marks such a pixel as undefined (`none`) and the harness does not compare it. -/
@@ -249,7 +249,7 @@ def fieldOutcome (spc : Bool) (m : Mode) (fill : V) (ndim : Nat) (arrs : List DA
   let r := overlap spc m fill ndim (arrs.map (fun a => a.toS.field name))
   if canvasDT arrs name = .i8 then
     if m ≠ .replace ∧ fill = none then .error "ValueError"
-    else if m = .mean then .error "UFuncTypeError"
+    else if m = .mean then .error "TypeError"  -- numpy's UFuncTypeError, a TypeError
     else .ok (r.1, r.2.map (castTo .i8))
   else .ok (r.1, r.2.map (castTo dt))
 
